@@ -104,7 +104,7 @@ def run(
     cfg_path = os.path.join(work, module + ".cfg")
     with open(cfg_path, "w") as f:
         f.write(cfg_text)
-    jopts = ["-XX:+UseParallelGC", f"-Xmx{heap}"]
+    jopts = ["-XX:+UseParallelGC", f"-Xmx{heap}", "-Xss512m"]
     if dfs_queue:
         jopts.append("-Dtlc2.tool.queue.IStateQueue=StateDeque")
     cmd = ["java", *jopts, "-cp", JAR_CP, "tlc2.TLC", *args, "-metadir", os.path.join(work, "meta"),
